@@ -44,6 +44,22 @@ def main():
                 except Exception:
                     out["events"]["failing_raised"] = out["events"].get("failing_raised", 0) + 1
                 continue
+            if op[0] == "export-to-file-failing":
+                # TikZ export(filename) with the default build_pdf=True: there is no LaTeX here, so the call fails after the
+                # document was generated (SVG: an unwritable path).  The timeline must export as before afterwards.
+                import os
+                import tempfile
+
+                with tempfile.TemporaryDirectory(prefix="vmon-c10-") as tmp:
+                    try:
+                        if h["backends"][k] == "tikz":
+                            tls[k].export(os.path.join(tmp, "t.tex"))
+                        else:
+                            tls[k].export(os.path.join(tmp, "no-such-dir", "t.svg"))
+                        out["events"]["file_export_did_not_fail"] = out["events"].get("file_export_did_not_fail", 0) + 1
+                    except Exception:
+                        out["events"]["file_export_failed"] = out["events"].get("file_export_failed", 0) + 1
+                continue
             if op[0] == "new":
                 data, options, _ = TL.build(h["specs"][k])
                 if k in share and share[k] in datas:
